@@ -555,9 +555,21 @@ private:
       dom_t x_impl(std::move(left._impl));
       dom_t y_impl(std::move(right._impl));
 
+      // The left operand must not be closed. Transfer functions such
+      // as assign or project may close it, so if each left term is
+      // generalized only once we just rename its variable.
+      std::map<term_id_t, unsigned> left_uses;
+      for (auto p : gener_map) {
+        left_uses[p.first.first]++;
+      }
+      bool rename_left = true;
+      for (auto p : left_uses) {
+        rename_left &= (p.second == 1);
+      }
+
       // Perform the mapping
       term_map_t out_map;
-      std::vector<dom_var_t> out_varnames;
+      std::vector<dom_var_t> out_varnames, left_varnames;
       for (auto p : gener_map) {
         auto txy = p.first;
         term_id_t tz = p.second;
@@ -568,12 +580,21 @@ private:
         dom_var_t vy = right.domvar_of_term(txy.second);
 
         out_varnames.push_back(vt);
+        left_varnames.push_back(vx);
 
-        x_impl.assign(vt, vx);
+        if (!rename_left) {
+          x_impl.assign(vt, vx);
+        }
         y_impl.assign(vt, vy);
       }
 
-      x_impl.project(out_varnames);
+      if (rename_left) {
+        // variables left in x_impl that are not renamed are
+        // unconstrained in y_impl so the widening forgets them.
+        x_impl.rename(left_varnames, out_varnames);
+      } else {
+        x_impl.project(out_varnames);
+      }
       y_impl.project(out_varnames);
 
       dom_t x_widen_y = widen_op.apply(x_impl, y_impl);
